@@ -5,6 +5,7 @@
 pub mod frames;
 pub mod huffman;
 pub mod qpack;
+pub mod qpack_dyn;
 pub mod static_table;
 pub mod varint;
 pub mod wire;
